@@ -198,3 +198,25 @@ SPECS["C02"] += [
              locals={"datapoints": L(D)}, skip=DAS_SKIP, cell=DAS_CELL, bind=_rob_bind(HUBER_CALL, True),
              doc="`solver` stands for `huber_m_estimate(., tau)`"),
 ]
+
+# ---- C04: the per-interface helpers, specialised on (interface kind, modes, unit): the conditions on these are decided at
+#      translation time, what is left is the numeric code of the branch taken
+def _iface_specs():
+    out = []
+    fs = {"material_inc.density": ("rho_fluid", K), "material_inc.longitudinal_vel": ("c_fluid", K),
+          "{o}.density": ("rho_solid", K), "{o}.longitudinal_vel": ("c_l", K), "{o}.transverse_vel": ("c_t", K)}
+    sf = {"material_inc.density": ("rho_solid", K), "material_inc.longitudinal_vel": ("c_l", K), "material_inc.transverse_vel": ("c_t", K),
+          "{o}.density": ("rho_fluid", K), "{o}.longitudinal_vel": ("c_fluid", K)}
+    params = [("angles_inc", K)] + COEF_PARAMS
+    for fn, other, combos in (("transmission_at_interface", "material_out", [("fluid_solid", "L", "L"), ("fluid_solid", "L", "T"), ("solid_fluid", "L", "L"), ("solid_fluid", "T", "L")]),
+                              ("reflection_at_interface", "material_against", [("solid_fluid", "L", "L"), ("solid_fluid", "L", "T"), ("solid_fluid", "T", "L"), ("solid_fluid", "T", "T"), ("fluid_solid", "L", "L")])):
+        for kind, mi, mo in combos:
+            for unit in ("stress", "displacement"):
+                b = {k.format(o=other): v for k, v in (fs if kind == "fluid_solid" else sf).items()}
+                out.append(FuncSpec(MODEL, fn, f"{fn}__{kind}_{mi}{mo}_{unit}", params, bind=b, objects={"material_inc", other},
+                                    static={"interface_kind": f"c.InterfaceKind.{kind}", "mode_inc": f"c.Mode.{mi}", "mode_out": f"c.Mode.{mo}",
+                                            "unit": unit, "force_complex": False},
+                                    doc=f"specialised: interface_kind={kind}, mode_inc={mi}, mode_out={mo}, unit='{unit}' "
+                                        "(`force_complex` only converts the dtype of the angles)"))
+    return out
+SPECS["C04"] += _iface_specs()
